@@ -444,3 +444,26 @@ class get_insert_token_c:
     ensures = ['FRESH(result)', 'result.is_group == False', 'result.ttype in T.Whitespace']
     raises = []
     serves = ['C08']
+
+
+# --------------------------------------------------------------------------------- _stripws_default: normal form (C10)
+
+class stripws_default_nf:
+    """C10 "no run of two whitespace characters" inside one group: in list order, a whitespace child that is the first
+    child or directly follows another whitespace child is blanked to '', any other whitespace child becomes exactly one
+    blank; so after the pass no two consecutive children of the group carry whitespace text, and none is longer than
+    one character"""
+    exec_class = HeapExec
+    params = {'tlist': make_group}
+    loops = {'0': {'cut': True,
+                   'inv': ['is_first_char == (IT0.K == 0)',
+                           'IT0.K == 0 or last_was_ws == tlist.tokens[IT0.K - 1].is_whitespace'],
+                   'iter_post': ["token.value == ('' if (iter_start(last_was_ws) or iter_start(is_first_char)) else ' ') "
+                                 "if token.is_whitespace else True"]}}
+    requires = []
+    ensures = []
+    raises = []
+    serves = ['C10']
+
+
+REG.add('sqlparse.filters.others.StripWhitespaceFilter._stripws_default', 'normal form', stripws_default_nf)
